@@ -33,15 +33,17 @@ TOP = Unknown()
 
 
 class Outcome:
-    __slots__ = ("kind", "value", "definite", "path", "line", "fn")
+    __slots__ = ("kind", "value", "definite", "path", "line", "fn", "env")
 
-    def __init__(self, kind, value, definite, path, line, fn):
+    def __init__(self, kind, value, definite, path, line, fn, env=None):
         self.kind = kind            # 'return' | 'throw' | 'end'
         self.value = value
         self.definite = definite
         self.path = path            # [(text, bool)]
         self.line = line
         self.fn = fn
+        self.env = env              # environment at the exit (member writes
+                                    # appear as "this.<member>")
 
     def __repr__(self):
         return "%s(%r%s @%s)" % (self.kind, self.value,
@@ -89,7 +91,8 @@ class Interp:
         st = State(env, True, [])
         rest = self._block(fn["body"], [st], outs, fn, depth)
         for s in rest:
-            outs.append(Outcome("end", None, s.definite, s.path, None, fn))
+            outs.append(Outcome("end", None, s.definite, s.path, None, fn,
+                                s.env))
         return outs
 
     # ------------------------------------------------------------ values
@@ -107,6 +110,9 @@ class Interp:
             return self.dom.value(self, e, env)
         if k == "this":
             return env.get("this", TOP)
+        if k == "mem" and (e.get("o") or {}).get("k") == "this" \
+                and ("this." + e.get("m", "")) in env:
+            return env["this." + e["m"]]
         if k in ("un", "op") and e.get("op") in ("*", "->") \
                 and len(e.get("a", ())) == 1:
             return self.eval(e["a"][0], env, depth)
@@ -299,7 +305,7 @@ class Interp:
                                         s.get("l"), fn))
                     continue
                 outs.append(Outcome("return", v, st.definite, st.path,
-                                    s.get("l"), fn))
+                                    s.get("l"), fn, st.env))
             return []
         if k == "expr":
             e = s.get("e") or {}
@@ -309,15 +315,61 @@ class Interp:
                         self, e, st.env), st.definite, st.path, s.get("l"),
                         fn))
                 return []
-            # assignment to a local
+            # assignment to a local or to a member of *this
             if e.get("k") in ("bin", "op") and e.get("op") == "=" \
-                    and len(e.get("a", ())) == 2 \
-                    and e["a"][0].get("k") == "ref" \
-                    and e["a"][0].get("d") == "local":
-                for st in states:
-                    st.env = dict(st.env)
-                    st.env[e["a"][0]["n"]] = self.eval(e["a"][1], st.env,
-                                                       depth)
+                    and len(e.get("a", ())) == 2:
+                lhs = e["a"][0]
+                name = None
+                if lhs.get("k") == "ref" and lhs.get("d") == "local":
+                    name = lhs["n"]
+                elif lhs.get("k") == "mem" and (lhs.get("o") or {}).get(
+                        "k") == "this":
+                    name = "this." + lhs["m"]
+                if name:
+                    keep = []
+                    for st in states:
+                        st.env = dict(st.env)
+                        try:
+                            st.env[name] = self.eval(e["a"][1], st.env,
+                                                     depth)
+                            keep.append(st)
+                        except AbsThrow as t:
+                            outs.append(Outcome(
+                                "throw", t.value, st.definite and t.definite,
+                                st.path, s.get("l"), fn))
+                    return keep
+                return states
+            # a call statement: member calls on *this are inlined for their
+            # effect on the members (e.g. error(), check_power())
+            if e.get("k") == "mcall" and (e.get("o") or {}).get("k") \
+                    == "this" and depth < self.max_depth:
+                g = self.prog.functions.get(e.get("u"))
+                if g is not None and g.get("body"):
+                    res = []
+                    for st in states:
+                        env2 = {k2: v2 for k2, v2 in st.env.items()
+                                if k2 == "this" or k2.startswith("this.")}
+                        for p, a in zip(g.get("params", ()), e.get("a", ())):
+                            try:
+                                env2[p["n"]] = self.eval(a, st.env, depth)
+                            except AbsThrow:
+                                env2[p["n"]] = TOP
+                        sub = []
+                        inner = self._block(g["body"], [State(
+                            env2, st.definite, st.path)], sub, g, depth + 1)
+                        for o in sub:
+                            if o.kind == "throw":
+                                outs.append(o)
+                            else:
+                                inner.append(State(o.env or env2, o.definite,
+                                                   o.path))
+                        for st2 in inner:
+                            env3 = dict(st.env)
+                            for k2, v2 in st2.env.items():
+                                if k2.startswith("this."):
+                                    env3[k2] = v2
+                            res.append(State(env3, st2.definite, st2.path))
+                    return res
             return states
         if k == "decl":
             keep = []
